@@ -71,7 +71,7 @@ def explore(ctx):
         "traces_validated_against_impl": len(cases) - ndis,
         "disagreements": ndis,
         "rule": "(a) rule sets of two rules over 16 small patterns (variables, _, literal identifier, literal datum, "
-                "sub-list, vector, trailing ellipsis over a variable or a sub-list) x 17 uses (%s); literal data include integers, reals and ratios, with numbers of the same value and another kind or spelling as near misses; (b) %d random rule "
+                "sub-list, vector, trailing ellipsis over a variable or a sub-list) x 17 uses (%s); literal data include integers, reals and ratios, with numbers of the same value and another kind or spelling as near misses; ellipsis sub-templates also with their variables only inside a vector or a nested list; (b) %d random rule "
                 "sets of 1-3 rules with nested list/vector patterns, literals, one trailing ellipsis per (sub)list, "
                 "templates mixing pattern variables, constants, free symbols that other rules bind, and ellipsis "
                 "sub-templates; uses derived from the rules' own patterns (1-4 items per ellipsis) and mutations "
